@@ -128,6 +128,10 @@ func (m *docker1SignedManifest) MarshalJSON() ([]byte, error) {
 		return []byte{}, errs.ErrManifestNotSet
 	}
 
+	if len(m.rawBody) > 0 {
+		return m.rawBody, nil
+	}
+
 	return m.SignedManifest.MarshalJSON()
 }
 
